@@ -108,9 +108,17 @@ def gen_plan(run_seed, tier, profile, focus):
   f = FOCUS.get(focus, FOCUS["C16"])
   if profile == "rsa":
     return _gen_rsa(r, tier, f, focus)
+  if profile == "rsa_large":
+    return _gen_rsa_large(r, tier, f, focus)
+  if profile == "ecdsa_large":
+    from dst import engine_a_gen_ec as E
+    return E.gen_ecdsa_large(r, tier, f, focus)
   if profile == "ec":
     from dst import engine_a_gen_ec as E
     return E.gen_ec(r, tier, f, focus)
+  if profile == "ec_default":
+    from dst import engine_a_gen_ec as E
+    return E.gen_ec_default(r, tier, f, focus)
   if profile == "ec_big":
     from dst import engine_a_gen_ec as E
     return E.gen_ec_big(r, tier, f, focus)
@@ -461,6 +469,42 @@ def _gen_rsa(r, tier, f, focus):
   return {"engine": "A", "kind": "rsa", "profile": "rsa", "focus": focus,
           "knobs": knobs, "pool": pool, "initial_annotations": initial,
           "ops": ops, "timeout": 900.0}
+
+
+def _gen_rsa_large(r, tier, f, focus):
+  """Batch sizes up to 200 (statement of C07): many healthy keys, a few weak
+  neighbours, all-checks and aggregate checks on the whole batch."""
+  nh = r.randint(40, 70) if tier == "quick" else r.randint(80, 200)
+  pool = [A.rsa_healthy(r, 2048) for _ in range(nh)]
+  weak = []
+  if r.random() < 0.8:
+    weak += A.rsa_shared_prime(r, 2)
+  if r.random() < 0.5:
+    weak.append(A.rsa_fermat(r))
+  if r.random() < 0.5:
+    weak.append(A.rsa_short(r))
+  pool += weak
+  r.shuffle(pool)
+  n = len(pool)
+  healthy = [j for j in range(n) if pool[j]["healthy"]]
+  allb = list(range(n))
+  reg = lambda name: {"name": name, "how": "registry", "via": "all"}
+  ops = [{"op": "check_all", "batch": allb, "log_level": r.choice([0, 1]),
+          "oracle": []},
+         {"op": "check", "check": reg("CheckGCD"),
+          "batch": r.sample(allb, n), "oracle": []},
+         {"op": "check", "check": reg("CheckGCDN1"), "batch": healthy,
+          "oracle": []},
+         {"op": "check_all", "batch": r.sample(healthy, len(healthy)),
+          "log_level": 0, "oracle": []}]
+  if r.random() < 0.5:
+    ops.insert(r.randint(0, 2), {"op": "restart"})
+  r.shuffle(ops)
+  return {"engine": "A", "kind": "rsa", "profile": "rsa_large",
+          "focus": focus, "knobs": {"clock_seed": r.getrandbits(32),
+                                    "denylist": _empty_deny()},
+          "pool": pool, "initial_annotations": {}, "ops": ops,
+          "timeout": 2400.0}
 
 
 def _rsa_bad_call(r, names):
